@@ -63,6 +63,9 @@ class Ctx:
         self._base = (0, 0)
         self._decided = {}
         self.decide_timeout_ms = 10000
+        self._signs = {}
+        self._signs_n = 0
+        self.nsign = 0
         self.symcount = 0
         self.symbols = {}       # name -> z3 const
         self.log = []
@@ -189,6 +192,28 @@ class Ctx:
         s.pop()
         return str(r)
 
+    def base_signs(self):
+        n = len(self.assumptions)
+        if self._signs_n != n:
+            for a in self.assumptions[self._signs_n:]:
+                if z3.is_app(a) and a.num_args() == 2 and z3.is_const(a.arg(0)) and z3.is_rational_value(a.arg(1)):
+                    k = a.decl().kind()
+                    c, v = a.arg(0), a.arg(1).numerator_as_long()
+                    sg = None
+                    if k == z3.Z3_OP_GT and v >= 0:
+                        sg = POS
+                    elif k == z3.Z3_OP_GE and v > 0:
+                        sg = POS
+                    elif k == z3.Z3_OP_GE and v == 0:
+                        sg = NONNEG
+                    elif k == z3.Z3_OP_LT and v <= 0:
+                        sg = NEG
+                    if sg is not None:
+                        old = self._signs.get(c.get_id(), (c, None))[1]
+                        self._signs[c.get_id()] = (c, POS if POS in (sg, old) else sg)
+            self._signs_n = n
+        return self._signs
+
     def decide(self, cond):
         """cond: z3 BoolRef.  Return a python bool, forking if both outcomes are feasible."""
         cond = z3.simplify(cond)
@@ -196,6 +221,10 @@ class Ctx:
             return True
         if z3.is_false(cond):
             return False
+        sd = sign_decide(cond, self.base_signs())
+        if sd is not None:
+            self.nsign += 1
+            return sd
         key = cond.get_id()
         hit = self._decided.get(key)
         if hit is not None and hit[0].eq(cond):
@@ -266,6 +295,153 @@ def is_linear(e):
         elif k == z3.Z3_OP_POWER:
             return False
     return True
+
+
+# ---- cheap sign analysis (decides most build-time branches without a nonlinear solver query) -------
+POS, NONNEG, ZERO, NEG, NONPOS, UNK = "pos", "nonneg", "zero", "neg", "nonpos", "unk"
+_NEGATE = {POS: NEG, NEG: POS, NONNEG: NONPOS, NONPOS: NONNEG, ZERO: ZERO, UNK: UNK}
+
+
+def _sign_add(a, b):
+    if a == ZERO:
+        return b
+    if b == ZERO:
+        return a
+    if a in (POS, NONNEG) and b in (POS, NONNEG):
+        return POS if POS in (a, b) else NONNEG
+    if a in (NEG, NONPOS) and b in (NEG, NONPOS):
+        return NEG if NEG in (a, b) else NONPOS
+    return UNK
+
+
+def _sign_mul(a, b):
+    if ZERO in (a, b):
+        return ZERO
+    if UNK in (a, b):
+        return UNK
+    strict = a in (POS, NEG) and b in (POS, NEG)
+    positive = (a in (POS, NONNEG)) == (b in (POS, NONNEG))
+    if positive:
+        return POS if strict else NONNEG
+    return NEG if strict else NONPOS
+
+
+def sign_of(e, base, memo=None):
+    """sound sign of a real term given signs of constants in `base` (z3 ast id -> sign)"""
+    memo = {} if memo is None else memo
+    i = e.get_id()
+    if i in memo:
+        return memo[i][1]
+    r = _sign_of(e, base, memo)
+    memo[i] = (e, r)
+    return r
+
+
+def _sign_of(e, base, memo):
+    if z3.is_rational_value(e):
+        n = e.numerator_as_long()
+        return POS if n > 0 else NEG if n < 0 else ZERO
+    if not z3.is_app(e):
+        return UNK
+    k = e.decl().kind()
+    ch = e.children()
+    if k == z3.Z3_OP_UNINTERPRETED:
+        if not ch:
+            return base.get(e.get_id(), (None, UNK))[1]
+        name = e.decl().name()
+        if name == "sqrt":
+            a = sign_of(ch[0], base, memo)
+            return a if a in (POS, NONNEG, ZERO) else UNK
+        if name == "exp":
+            return POS
+        if name == "pow":
+            return POS if sign_of(ch[0], base, memo) == POS else UNK
+        if name == "Phi":
+            return POS
+        return UNK
+    if k == z3.Z3_OP_ADD:
+        r = ZERO
+        for c in ch:
+            r = _sign_add(r, sign_of(c, base, memo))
+            if r == UNK:
+                return UNK
+        return r
+    if k == z3.Z3_OP_SUB:
+        r = sign_of(ch[0], base, memo)
+        for c in ch[1:]:
+            r = _sign_add(r, _NEGATE[sign_of(c, base, memo)])
+        return r
+    if k == z3.Z3_OP_UMINUS:
+        return _NEGATE[sign_of(ch[0], base, memo)]
+    if k == z3.Z3_OP_MUL:
+        # squares: x*x
+        if len(ch) == 2 and ch[0].eq(ch[1]):
+            a = sign_of(ch[0], base, memo)
+            return POS if a in (POS, NEG) else ZERO if a == ZERO else NONNEG
+        r = POS
+        for c in ch:
+            r = _sign_mul(r, sign_of(c, base, memo))
+        return r
+    if k == z3.Z3_OP_DIV:
+        a, b = sign_of(ch[0], base, memo), sign_of(ch[1], base, memo)
+        if b in (POS, NEG):
+            return _sign_mul(a, b)
+        return UNK
+    if k == z3.Z3_OP_POWER and z3.is_rational_value(ch[1]) and ch[1].denominator_as_long() == 1:
+        n = ch[1].numerator_as_long()
+        a = sign_of(ch[0], base, memo)
+        if n % 2 == 0:
+            return POS if a in (POS, NEG) else ZERO if a == ZERO and n > 0 else NONNEG if n > 0 else UNK
+        return a if n > 0 else UNK
+    if k == z3.Z3_OP_ITE:
+        a, b = sign_of(ch[1], base, memo), sign_of(ch[2], base, memo)
+        if a == b:
+            return a
+        if {a, b} <= {POS, NONNEG, ZERO}:
+            return NONNEG
+        if {a, b} <= {NEG, NONPOS, ZERO}:
+            return NONPOS
+        return UNK
+    if k == z3.Z3_OP_TO_REAL:
+        return sign_of(ch[0], base, memo)
+    return UNK
+
+
+def sign_decide(cond, base):
+    """True / False when the comparison is settled by sign analysis, else None"""
+    if z3.is_not(cond):
+        r = sign_decide(cond.arg(0), base)
+        return None if r is None else (not r)
+    if z3.is_and(cond):
+        rs = [sign_decide(c, base) for c in cond.children()]
+        if any(r is False for r in rs):
+            return False
+        return True if all(r is True for r in rs) else None
+    if z3.is_or(cond):
+        rs = [sign_decide(c, base) for c in cond.children()]
+        if any(r is True for r in rs):
+            return True
+        return False if all(r is False for r in rs) else None
+    if not z3.is_app(cond) or cond.num_args() != 2 or not z3.is_real(cond.arg(0)):
+        return None
+    k = cond.decl().kind()
+    a, b = cond.arg(0), cond.arg(1)
+    memo = {}
+    sa, sb_ = sign_of(a, base, memo), sign_of(b, base, memo)
+    sd = _sign_add(sa, _NEGATE[sb_])      # sign of a - b
+    if k == z3.Z3_OP_EQ:
+        return True if sd == ZERO else False if sd in (POS, NEG) else None
+    if k == z3.Z3_OP_DISTINCT:
+        return False if sd == ZERO else True if sd in (POS, NEG) else None
+    if k == z3.Z3_OP_GT:
+        return True if sd == POS else False if sd in (NEG, NONPOS, ZERO) else None
+    if k == z3.Z3_OP_GE:
+        return True if sd in (POS, NONNEG, ZERO) else False if sd == NEG else None
+    if k == z3.Z3_OP_LT:
+        return True if sd == NEG else False if sd in (POS, NONNEG, ZERO) else None
+    if k == z3.Z3_OP_LE:
+        return True if sd in (NEG, NONPOS, ZERO) else False if sd == POS else None
+    return None
 
 
 CTX = Ctx()
